@@ -2025,7 +2025,21 @@ func calcDescriptorVBIDataLength(d *DescriptorVBIData) uint8 {
 	if d == nil {
 		return 0
 	}
-	return uint8(3 * len(d.Services))
+	ret := 0
+	for _, s := range d.Services {
+		ret += 2 // data service id and length of the descriptors
+		if s.DataServiceID == VBIDataServiceIDClosedCaptioning ||
+			s.DataServiceID == VBIDataServiceIDEBUTeletext ||
+			s.DataServiceID == VBIDataServiceIDInvertedTeletext ||
+			s.DataServiceID == VBIDataServiceIDMonochrome442Samples ||
+			s.DataServiceID == VBIDataServiceIDVPS ||
+			s.DataServiceID == VBIDataServiceIDWSS {
+			ret += len(s.Descriptors) // each descriptor is 1 byte
+		} else {
+			ret++ // one reserved byte
+		}
+	}
+	return uint8(ret)
 }
 
 func writeDescriptorVBIData(w *astikit.BitsWriter, d *DescriptorVBIData) error {
